@@ -79,7 +79,7 @@ func main() {
 			"API exchanges are drawn from the same distribution as ordinary traffic w.r.t. everything verifiers and filters look at (header present with matching / other / blank value or absent on either side, method, query keys, cookies; API responses carry the drawn headers). " +
 			"Every 256th history is long (1100-1700 mostly failing exchanges through a group-rooted tree, queried three times: >1024 failures per verifier and per tree between resets); a tenth of the exchanges carries a query string net/url cannot parse completely (stray %, ';' separator). " +
 			"Header verifiers also target Host and Transfer-Encoding (kept outside the header map by net/http; messages are built as http.ReadRequest/ReadResponse deliver them, chunked bodies included). " +
-			"Stress runs (quick 16 + 8 under the race detector, thorough 320 + 168): 3-5 goroutines x 60-120 exchanges racing with 2-4 query loops and, in every second run, a reset loop; interval checks on every query (nothing spurious, duplicated or surviving a completed reset, nothing completed-before-the-query missing). " +
+			"Stress runs (quick 16 + 20 under the race detector, thorough 320 + 168): 3-5 goroutines x 60-120 exchanges racing with 2-4 query loops and, in every second run, a reset loop; interval checks on every query (nothing spurious, duplicated or surviving a completed reset, nothing completed-before-the-query missing). " +
 			"Every concurrent run is awaited by quiescence (vh.Await): operations that never return while all martian goroutines are parked = violation C13:stuck (the batch then ends). " +
 			"A class = (top-level kind | depth | verifier kinds bucket | branch placement | history pattern) observed at a compared query, (verifier kind | side | failure path or met | api or traffic) for every evaluation covered by a compared query, plus porcupine partitions checked by verifier kind and overlap bucket.",
 		Assumptions: []string{
@@ -1715,7 +1715,8 @@ type sExch struct {
 func runStress(r *vh.Run, c stressCase) bool {
 	rng := r.Rng(c.Stream, c.Idx)
 	o := cfgx.VGenOpts{MaxDepth: 2 + rng.Intn(3), MaxWidth: 3, Scopes: rng.Intn(4) == 0, NoPing: true}
-	top := []string{"group", "group", "filter", ""}[c.Idx%4]
+	// 0: group, 1: bare verifier (with resets), 2: filter, 3: group (with resets)
+	top := []string{"group", "verifier", "filter", "group"}[c.Idx%4]
 	o.Top = top
 	t := cfgx.GenVTree(rng, o)
 	wiring := wMartian
@@ -1921,6 +1922,33 @@ func runStress(r *vh.Run, c stressCase) bool {
 				}
 			}
 		}
+		// one verifier side is read atomically: an entry recorded before a reset began and an
+		// entry recorded after that reset returned cannot both be in one answer
+		for _, rs := range resets {
+			type ep struct{ old, new int }
+			eps := map[[2]int]*ep{}
+			for k := range got {
+				e := evs[k]
+				x := eps[[2]int{k.VIdx, int(k.Side)}]
+				if x == nil {
+					x = &ep{}
+					eps[[2]int{k.VIdx, int(k.Side)}] = x
+				}
+				if e.t1 < rs.t0 {
+					x.old++
+				}
+				if e.t0 > rs.t1 {
+					x.new++
+				}
+			}
+			for k, x := range eps {
+				if x.old > 0 && x.new > 0 {
+					viol(fmt.Sprintf("C13:mixed-epochs:%s:%s", a.vs[k[0]].Kind, cfgx.Kind(k[1])),
+						"one answer contains failures of a verifier from before a reset began and from after it returned: the list was changed while it was being reported",
+						map[string]interface{}{"verifier": a.vs[k[0]], "old_entries": x.old, "new_entries": x.new, "reset": []int64{rs.t0, rs.t1}, "query": []int64{q.t0, q.t1}})
+				}
+			}
+		}
 		for k, e := range evs {
 			if e.t0 < q.t1 && q.t0 < e.t1 {
 				overlapQ++
@@ -1997,7 +2025,7 @@ func run(r *vh.Run, batch string) {
 		}
 		ns := r.Pick(8, 40)
 		if race {
-			ns = r.Pick(2, 12)
+			ns = r.Pick(5, 12)
 		}
 		for i := 0; i < ns; i++ {
 			c := stressCase{Kind: "stress", Stream: "c13-stress-" + batch, Idx: i}
